@@ -28,7 +28,7 @@ use crate::memory::{get_optimal_numa_node, numa_alloc_aligned, numa_dealloc};
 use std::sync::{Arc, Mutex};
 // Additional sync primitives (currently unused)
 // use std::sync::RwLock;
-use std::sync::atomic::{AtomicU32, AtomicUsize, Ordering};
+use std::sync::atomic::{AtomicU32, AtomicU64, AtomicUsize, Ordering};
 // Additional utilities (currently unused)
 // use std::collections::HashMap;
 // use std::marker::PhantomData;
@@ -176,18 +176,36 @@ impl Default for FreeListHead {
 #[derive(Debug)]
 #[repr(align(64))]
 struct LockFreeFreeListHead {
-    head: AtomicU32,
+    /// Packed as `(generation << 32) | offset`; the offset half is `u32::MAX`
+    /// when the list is empty. Every successful pop and push advances the
+    /// generation, so a compare-exchange holding a head word from before other
+    /// threads popped and re-pushed the same offset fails (no ABA).
+    head: AtomicU64,
     count: AtomicU32,
-    _padding: [u8; 64 - 8], // Ensure 64-byte alignment
+    _padding: [u8; 64 - 12], // Ensure 64-byte alignment
 }
 
 impl Default for LockFreeFreeListHead {
     fn default() -> Self {
         Self {
-            head: AtomicU32::new(u32::MAX),
+            head: AtomicU64::new(u32::MAX as u64),
             count: AtomicU32::new(0),
-            _padding: [0; 64 - 8],
+            _padding: [0; 64 - 12],
         }
+    }
+}
+
+impl LockFreeFreeListHead {
+    /// Offset half of a head word (a block offset or `u32::MAX`)
+    #[inline]
+    fn offset_of(word: u64) -> u32 {
+        word as u32
+    }
+
+    /// Head word that replaces `current` with `offset` and the next generation
+    #[inline]
+    fn advance(current: u64, offset: u32) -> u64 {
+        ((((current >> 32) as u32).wrapping_add(1) as u64) << 32) | offset as u64
     }
 }
 
@@ -672,7 +690,8 @@ impl LockFreePool {
             // Lock-free compare-exchange loop
             loop {
                 let current_head = head.head.load(Ordering::Acquire);
-                if current_head == u32::MAX {
+                let current_offset = LockFreeFreeListHead::offset_of(current_head);
+                if current_offset == u32::MAX {
                     break; // No free blocks
                 }
                 
@@ -680,21 +699,21 @@ impl LockFreePool {
                 let next_head = unsafe {
                     let memory = self.memory.lock()
                         .map_err(|e| ZiporaError::resource_busy(format!("Memory mutex poisoned: {}", e)))?;
-                    let ptr = memory.offset_ptr(current_head as usize) as *const u32;
+                    let ptr = memory.offset_ptr(current_offset as usize) as *const u32;
                     *ptr
                 };
                 
-                // Try to update head atomically
+                // Try to update head atomically (full word: a stale generation fails)
                 match head.head.compare_exchange_weak(
                     current_head,
-                    next_head,
+                    LockFreeFreeListHead::advance(current_head, next_head),
                     Ordering::Release,
                     Ordering::Relaxed
                 ) {
                     Ok(_) => {
                         head.count.fetch_sub(1, Ordering::Relaxed);
                         self.fragment_size.fetch_sub(size, Ordering::Relaxed);
-                        return Ok(MemOffset::new(current_head as usize));
+                        return Ok(MemOffset::new(current_offset as usize));
                     }
                     Err(_) => {
                         // Retry loop
@@ -731,13 +750,13 @@ impl LockFreePool {
                     let memory = self.memory.lock()
                         .map_err(|e| ZiporaError::resource_busy(format!("Memory mutex poisoned: {}", e)))?;
                     let ptr = memory.offset_ptr(offset.to_usize()) as *mut u32;
-                    *ptr = current_head;
+                    *ptr = LockFreeFreeListHead::offset_of(current_head);
                 }
                 
-                // Try to update head atomically
+                // Try to update head atomically (full word: a stale generation fails)
                 match head.head.compare_exchange_weak(
                     current_head,
-                    offset.0,
+                    LockFreeFreeListHead::advance(current_head, offset.0),
                     Ordering::Release,
                     Ordering::Relaxed
                 ) {
@@ -802,7 +821,7 @@ impl LockFreePool {
 unsafe impl Send for LockFreePool {}
 
 // SAFETY: LockFreePool is Sync because:
-// 1. Fast bin operations use lock-free atomic CAS (AtomicU32 head/count).
+// 1. Fast bin operations use lock-free atomic CAS (generation-tagged AtomicU64 head, AtomicU32 count).
 // 2. Memory expansion is protected by Arc<Mutex<...>>.
 // 3. Huge allocations are protected by Mutex.
 // 4. AtomicUsize fragment tracking is inherently thread-safe.
